@@ -202,6 +202,22 @@ fn execute_found(sc: &Scenario, acc: &mut Acc) -> Result<Vec<Found>, String> {
             if !before.ok {
                 continue;
             }
+            // A hunk that still decodes after the damage, to DIFFERENT entries, can move the
+            // resume point of the stitching (its last path) or introduce other paths: what the
+            // bands stitched onto it list is then legitimately different, and nothing in the
+            // format lets a reader notice. Only no-panic/no-hang is demanded of those bands.
+            if class == "hunk" {
+                let dband = damaged_band.unwrap_or(u32::MAX);
+                let still_decodes = post_view
+                    .bands
+                    .get(&dband)
+                    .map(|b| b.hunk_paths.iter().any(|(n, p)| *p == path && matches!(b.hunks.get(n), Some(FileView::Ok(_)))))
+                    .unwrap_or(false);
+                if still_decodes && chain.contains(&dband) {
+                    acc.hit("hunk_decodable_but_different");
+                    continue;
+                }
+            }
             for (donor, hunk_no, e) in &listing {
                 if e.kind != "File" {
                     continue;
